@@ -2,18 +2,23 @@
 import glob, json, os, shutil
 import vlib
 
-TARGETS = ["Base/Corr.vo", "C10/Gen.vo", "C10/GenAcc.vo", "C10/Model.vo", "C10/ModelSparse.vo", "C10/Corr.vo", "C10/Spec.vo",
+TARGETS = ["Base/Corr.vo", "C10/Gen.vo", "C10/GenAcc.vo", "C10/GenLoop.vo", "C10/ProofsLoop.vo", "C10/Model.vo", "C10/ModelSparse.vo", "C10/Corr.vo", "C10/Spec.vo",
            "C10/ProofsIndex.vo", "C10/ProofsViews.vo", "C10/ProofsIter.vo", "C10/ProofsIterSkip.vo", "C10/ProofsOps.vo",
            "C10/ProofsTip.vo", "C10/ProofsTipGen.vo", "C10/ProofsOpsView.vo", "C10/ProofsSparse.vo", "C10/ProofsSparseT.vo",
            "C10/ProofsAcc.vo", "C10/ProofsPermView.vo", "C10/ProofsTipAll.vo", "C10/ProofsTipView.vo",
-           "C10/ModelBin.vo", "C10/CorrBin.vo", "C10/ProofsBinView.vo", "C10/ProofsJoint.vo", "C10/Props.vo"]
+           "C10/ModelBin.vo", "C10/CorrBin.vo", "C10/ProofsBinView.vo", "C10/ProofsJoint.vo",
+           "C10/ModelMap.vo", "C10/CorrMap.vo", "C10/ProofsMap.vo", "C10/Props.vo"]
 PROPS = ["C10/Props.v"]
 PARTIAL = (
     "The integer kernels (index, ij, SLICE/Slice/ConstSlice, T/MagicT, Dims, dense iterator Ok/next/Index) are re-translated "
     "from all 18 matrix instantiations of the repository on every run (go2coq_c10 -> Gen.v), and so is the copy-vs-reference "
     "table of the 11 vector-returning dense accessors per value of the transposed flag (go2coq_c10/acc.go -> GenAcc.v: "
     "values[a:b] = AliasesStorage, fresh vector filled element-wise = Copies, or SharesCells for the pointer elements of "
-    "Real32/Real64 without Clone()); the theorems are re-checked against the regenerated text. Everything that touches "
+    "Real32/Real64 without Clone()); round 6 adds the TRAVERSAL table of the 27 cell-by-cell whole-matrix methods of all nine "
+    "dense instantiations (go2coq_c10/loops.go -> GenLoop.v: Reset, SetIdentity, Set, Map, MapSet, Reduce, IsSymmetric, "
+    "Equals/EQUALS, M{add,sub,mul,div}{M,S} with their upper-case twins, Outer/OUTER are `for i<rows {for j<cols {` over the "
+    "receiver's Dims() reaching matrices only through At/AT/ConstAt/index(i,j), never raw offsets into the backing array); the "
+    "theorems are re-checked against the regenerated text. Everything that touches "
     "storage (element access, Reset/Set/SetIdentity, element-wise ops, MdotM/MdotV/VdotM, Row/Col/Diag, ConstRow/ConstCol, "
     "Swap*/Permute*, Tip, AsVector/AsMatrix, Clone, MarshalJSON, String/Table/Export, iterators with their zero-skipping "
     "loop; sparse: the same header over one sorted (index,value) list, T() re-layout) is the hand-written model of "
@@ -22,7 +27,7 @@ PARTIAL = (
     "content (induction over the cycles with the visited set and the skip test as coded; the model's fuel mn+1 is never "
     "exhausted) on matrices that own their storage, and on transposed views (flag cleared); on NON-transposed proper "
     "windows the code is wrong (proposed finding F-TIP-VIEW, refuted by witnesses). Operation-on-view = operation-on-"
-    "deep-copy is a theorem for every read-only/arithmetic operation of the model, for the whole-matrix writes, and now "
+    "deep-copy is a theorem for every read-only/arithmetic operation of the model, for the whole-matrix writes, and "
     "for the in-place permuting writes (Swap, SwapRows/SwapColumns, PermuteRows/PermuteColumns/SymmetricPermutation, MdotM "
     "with the view as receiver in both schedules): same outcome, view = copy's elements, frame, heap = copy written back; "
     "the product needs non-empty shapes (storageLocation of an empty copy panics). Round 5: receiver AND operands views of "
@@ -33,7 +38,19 @@ PARTIAL = (
     "sibling window: wrong schedule) is the proposed finding F-MDOTM-SIBLING (= C08's F-MDOTM-T); shifted/transposed OVERLAPS "
     "of the receiver with an operand are receiver aliasing (C08) and only replayed. The dense joint iterator is modelled "
     "step by step and proved to depend on shapes and elements only. "
-    "Not modelled: Map/MapSet/Reduce callbacks, element types' rounding (values are small integers). "
+    "Round 6 (ModelMap.v, third replay stream): Map / MapSet / the WRITING iterator (Iterator()+Get()) with ANY callback that "
+    "sees the element it is handed and its own closure state (a Gallina function St -> Z -> St * Z, St any type), Reduce with "
+    "any callback, MaddS/MsubS/MmulS/MdivS with the view as receiver (operand = the view or a matrix elsewhere), Outer, Equals in "
+    "both positions and ConstDiag are proved, on every well-formed view and every composition of Slice/T, to give the same "
+    "final closure state / result / panic as on an independent deep copy, to leave the view with the copy's elements, with "
+    "frame and 'heap = copy written back'; Reduce is proved to be the left fold over the row-major elements and Map/MapSet to be "
+    "the sequential run of the callback over the row-major elements (map_closed_form: final state, produced values in place, frame). "
+    "Still not modelled / not proved: callbacks that RE-ENTER the matrix (read or write other elements of the receiver or its "
+    "parent while being called); a closed form of the writing iterator (it is proved equal to the run on a deep copy only); "
+    "matrix-scalar operations whose RECEIVER is elsewhere and whose operand is the view (replayed only); MdivM "
+    "(traversal table only; MdivS is replayed with the truncated quotient the harness observes); Jacobian/Hessian; element types' rounding (values are small "
+    "integers). The upper-case concrete twins (MADDS, OUTER, EQUALS ...) are called by reflection in the replay and the hunt and "
+    "pinned by the traversal table; the body statements inside the loops are hand model + replay. "
     "Sparse T() is proved for whole matrices of every shape and content; sparse views are covered by witness refutations. "
     "Known findings (F-ASVEC, F-SPITER, F-SPT, F-SPT-REF, F-IJ-T, proposed F-TIP-VIEW, F-MDOTM-SIBLING) are excluded from the universally "
     "quantified statements and refuted by witness lemmas instead.")
@@ -74,7 +91,7 @@ def match_known(f, kfs):
 
 # ---------------------------------------------------------------- translator (T2)
 
-def private_tree(ctx, gen_text, acc_text=None):
+def private_tree(ctx, gen_text, acc_text=None, loop_text=None):
     """REPO is redirected and its kernels differ from the committed Gen.v: compile Base + C10 with the
     regenerated Gen.v in a private tree under ctx.dir (the shared coq/ tree is left alone)."""
     root = os.path.join(ctx.dir, "coq")
@@ -85,6 +102,8 @@ def private_tree(ctx, gen_text, acc_text=None):
     open(os.path.join(root, "C10", "Gen.v"), "w").write(gen_text)
     if acc_text is not None:
         open(os.path.join(root, "C10", "GenAcc.v"), "w").write(acc_text)
+    if loop_text is not None:
+        open(os.path.join(root, "C10", "GenLoop.v"), "w").write(loop_text)
     return root
 
 
@@ -98,8 +117,9 @@ def translate(ctx):
     gen = os.path.join(ctx.dir, "Gen.v")
     rep = os.path.join(ctx.dir, "gen_report.json")
     acc = os.path.join(ctx.dir, "GenAcc.v")
-    rc, out = vlib.sh([tool, "-repo", vlib.REPO, "-out", gen, "-acc", acc, "-report", rep], timeout=120, env=vlib.go_env())
-    if rc != 0 or not os.path.exists(gen) or not os.path.exists(rep) or not os.path.exists(acc):
+    loops = os.path.join(ctx.dir, "GenLoop.v")
+    rc, out = vlib.sh([tool, "-repo", vlib.REPO, "-out", gen, "-acc", acc, "-loops", loops, "-report", rep], timeout=300, env=vlib.go_env())
+    if rc != 0 or not os.path.exists(gen) or not os.path.exists(rep) or not os.path.exists(acc) or not os.path.exists(loops):
         ctx.oblige(1, 0)
         return False, [{"target": "go2coq_c10 run", "lemma": None, "errors": [out[-1500:]]}]
     report = json.load(open(rep))
@@ -107,17 +127,20 @@ def translate(ctx):
     ok = bool(report.get("ok"))
     ctx.oblige(1, 1 if ok else 0)
     if not ok:
-        failures.append({"target": "translation of the index kernels / accessor table (an instantiation differs from its "
-                                   "family or a construct is outside the translated grammar)", "lemma": None,
+        failures.append({"target": "translation of the index kernels / accessor table / traversal table of the cell-by-cell "
+                                   "methods (an instantiation differs from its family or a construct is outside the translated grammar)", "lemma": None,
                          "errors": [json.dumps({k: v for k, v in report.items() if k != "ok"})[:1500]]})
-    new, new_acc = open(gen).read(), open(acc).read()
+    new, new_acc, new_loops = open(gen).read(), open(acc).read(), open(loops).read()
     committed_path = os.path.join(vlib.ROOT, "coq", "C10", "Gen.v")
     acc_path = os.path.join(vlib.ROOT, "coq", "C10", "GenAcc.v")
     committed = open(committed_path).read() if os.path.exists(committed_path) else ""
     committed_acc = open(acc_path).read() if os.path.exists(acc_path) else ""
+    loops_path = os.path.join(vlib.ROOT, "coq", "C10", "GenLoop.v")
+    committed_loops = open(loops_path).read() if os.path.exists(loops_path) else ""
+    ctx.cov["gen_loops_changed"] = new_loops != committed_loops
     ctx.cov["gen_changed"] = new != committed
     ctx.cov["gen_acc_changed"] = new_acc != committed_acc
-    if new != committed or new_acc != committed_acc:
+    if new != committed or new_acc != committed_acc or new_loops != committed_loops:
         if os.path.abspath(vlib.REPO) == "/repo":
             # the regenerated files are the model from now on (a file is only rewritten when it differs:
             # Gen.v is imported by C08 C09 C12, its timestamp must not move needlessly)
@@ -125,10 +148,12 @@ def translate(ctx):
                 open(committed_path, "w").write(new)
             if new_acc != committed_acc:
                 open(acc_path, "w").write(new_acc)
-            ctx.log("Gen.v / GenAcc.v regenerated from %s differ from the previous ones: proofs are re-checked against them" % vlib.REPO)
+            if new_loops != committed_loops:
+                open(loops_path, "w").write(new_loops)
+            ctx.log("Gen.v / GenAcc.v / GenLoop.v regenerated from %s differ from the previous ones: proofs are re-checked against them" % vlib.REPO)
         else:
-            vlib.COQ = private_tree(ctx, new, new_acc)   # redirected run: never touch the shared tree
-            ctx.log("Gen.v / GenAcc.v regenerated from %s differ: proofs re-checked in private tree %s" % (vlib.REPO, vlib.COQ))
+            vlib.COQ = private_tree(ctx, new, new_acc, new_loops)   # redirected run: never touch the shared tree
+            ctx.log("Gen.v / GenAcc.v / GenLoop.v regenerated from %s differ: proofs re-checked in private tree %s" % (vlib.REPO, vlib.COQ))
     return ok, failures
 
 
@@ -186,15 +211,56 @@ def corr(ctx, binary, n, corpus):
             nb += 1
     ctx.log("correspondence (binary operations on views of one parent, joint iterator): %d cases in %d shards, "
             "%d mismatching (%.0fs coqc)" % (len(bcases), len(resb), nb, sum(r["secs"] for r in resb)))
+    # third stream: callbacks / matrix-scalar / Outer / Equals / ConstDiag / typed readers on dense views (CorrMap.mismX)
+    mp = os.path.join(ctx.dir, "xcases.meta.json")
+    if not os.path.exists(mp):
+        ctx.violation({"obligation": "C10 harness run (callback stream)"}, False, "the harness wrote no callback-operation cases")
+        return bad
+    metax = json.load(open(mp))
+    vlib.merge_meta(ctx, metax)
+    shardsx = sorted(glob.glob(os.path.join(ctx.dir, "xcases_*.v")), key=lambda p: int(p.rsplit("_", 1)[1][:-2]))
+    resx = vlib.eval_shards(shardsx)
+    ctx.oblige(len(resx), sum(1 for r in resx if r["ok"]))
+    xcases = vlib.load_jsonl(os.path.join(ctx.dir, "xcases.jsonl"))
+    nx = 0
+    for k, r in enumerate(resx):
+        if r["ok"]:
+            continue
+        if r["mism"] is None:
+            ctx.violation({"obligation": "correspondence shard " + os.path.basename(r["path"]),
+                           "coqc_error": r["error"]}, False, "correspondence shard did not evaluate")
+            continue
+        for i in r["mism"]:
+            bad.append(xcases[k * metax["per_shard"] + i])
+            nx += 1
+    ctx.log("correspondence (Map/MapSet/Reduce/writing iterator callbacks, matrix-scalar, Outer, Equals, ConstDiag, typed "
+            "readers on views): %d cases in %d shards, %d mismatching (%.0fs coqc)" % (
+                len(xcases), len(resx), nx, sum(r["secs"] for r in resx)))
     return bad
 
 
-def hunt(ctx, binary, seeds, n):
+def deviating_types(ctx):
+    """Element types whose instantiation the translator reported as different from its family (Gen / GenAcc / GenLoop)."""
+    out = []
+    def walk(x):
+        if isinstance(x, dict):
+            for k, v in x.items():
+                if k == "different" and isinstance(v, list):
+                    out.extend(str(e) for e in v)
+                else:
+                    walk(v)
+    walk(ctx.cov.get("translator") or {})
+    names = {"float64": "Float64", "float32": "Float32", "int": "Int", "int64": "Int64", "int32": "Int32", "int16": "Int16",
+             "real64": "Real64", "real32": "Real32"}
+    return sorted({names[e] for e in out if e in names})
+
+
+def hunt(ctx, binary, seeds, n, directed=True):
     """Property-level oracle on the implementation: seeds first, then exhaustive small shapes, then random."""
     rp = os.path.join(ctx.dir, "hunt_in.json")
     for c in seeds:
         c.pop("obs", None)
-    json.dump({"cases": seeds[:200]}, open(rp, "w"))
+    json.dump({"cases": seeds[:200], "types": deviating_types(ctx) if directed else []}, open(rp, "w"))
     rc, out = vlib.sh([binary, "--extra", "hunt", "--replay", rp, "--n", str(n), "--seed", str(ctx.seed),
                        "--tier", ctx.tier, "--out", ctx.dir], timeout=1500, env=vlib.go_env())
     hp = os.path.join(ctx.dir, "hunt.json")
@@ -229,7 +295,8 @@ def describe(f):
 def run(ctx):
     ctx.cov["trusted_base"] = vlib.TRUSTED_BASE_COMMON + [
         "go2coq_c10 (the integer-kernel translator, ~500 lines of Go, go/parser + go/ast only): trusted for the shape of "
-        "what it emits; its output is executed against the implementation by the correspondence run",
+        "what it emits; its output is executed against the implementation by the correspondence run; its accessor-provenance "
+        "pass (acc.go) and loop-shape pass (loops.go) are pattern matchers whose verdicts are trusted as classifications",
         "axioms: see 'print_assumptions' (expected: closed under the global context)"]
     ctx.cov["partial"] = PARTIAL
     tr_ok, failures = translate(ctx)
@@ -293,7 +360,7 @@ def replay(ctx, path):
         agree = bool(res) and all(r["ok"] for r in res)
     if case.get("op", {}).get("name") == "ij":
         case["op"] = {"name": ""}
-    h = hunt(ctx, binary, [case], 0)
+    h = hunt(ctx, binary, [case], 0, directed=False)
     kfs = known_list()
     unknown = [f for f in (h.get("failures") or []) if match_known(f, kfs) is None]
     known = [f for f in (h.get("failures") or []) if match_known(f, kfs) is not None]
